@@ -161,14 +161,21 @@ def gen_program(r, two=None):
         if r.random() < 0.4:
             windows.insert(r.randrange(max(1, len(windows) - 6), len(windows)), 0x00000)
     expanded = []
+    windowed = set()
     for kind in seq:
         expanded.append(kind)
     for kind in expanded:
         st = mk_stmt(kind)
         if st is not None and st["kind"] == "section" and st["name"] in ("text", "code"):
-            # code and text share base address 0: give the (re-)entered section its own fresh window
+            # code and text share base address 0: give the (re-)entered section its own fresh window - except that a
+            # section which already got its own window earlier in this program may simply be CONTINUED (its statements go
+            # on where that section left off: the two names keep separate location counters)
             lines.append({"stmt": st})
             classes.add("section")
+            if st["name"] in windowed and r.random() < 0.5:
+                classes.add("section_continued")
+                continue
+            windowed.add(st["name"])
             st = {"kind": "org", "addr": windows.pop()}
         line = {"stmt": st}
         if r.random() < (0.35 if st is None or st["kind"] not in ("org", "section") else 0.15):
